@@ -1,9 +1,11 @@
 #!/bin/bash
-# Sensitivity self-test: applies each hand-written mutant (mutants/<ID>-*.patch) to
+# Sensitivity self-test: applies each hand-written mutant (mutants/<ID>-*.patch) and each
+# sub-agent seeded change (seeded/<ID>-<x>/patch.diff) to
 # /repo, confirms it still compiles and passes the 60 baseline tests, runs the
 # property's quick check (expects exit 1), and restores /repo. Never leaves /repo
 # modified (trap). Usage: tools/mutation_selftest.sh [glob, default '*'] [tier]
 #   SKIP_TESTS=1 skips the baseline-suite run (faster while developing).
+#   CHECK_ID=C02 runs that property's check instead of the one named by the patch (cross-detection).
 set -u
 ROOT="$(cd "$(dirname "$0")/.." && pwd)"
 PAT="${1:-*}"; TIER="${2:-quick}"
@@ -12,9 +14,10 @@ trap restore EXIT
 if [ -n "$(git -C /repo status --porcelain --untracked-files=no)" ]; then echo "/repo has uncommitted changes; refusing"; exit 2; fi
 printf "%-44s %-10s %-8s %s\n" mutant tests check verdict
 fails=0
-for p in "$ROOT"/mutants/$PAT.patch; do
+for p in "$ROOT"/mutants/$PAT.patch "$ROOT"/seeded/$PAT/patch.diff; do
   [ -e "$p" ] || continue
-  name="$(basename "$p" .patch)"; id="${name%%-*}"
+  if [ "$(basename "$p")" = patch.diff ]; then name="seeded/$(basename "$(dirname "$p")")"; id="$(basename "$(dirname "$p")")"; id="${id%%-*}"; else name="$(basename "$p" .patch)"; id="${name%%-*}"; fi
+  [ -n "${CHECK_ID:-}" ] && id="$CHECK_ID"
   if ! git -C /repo apply "$p" 2>/tmp/mutant_apply.err; then printf "%-44s %s\n" "$name" "PATCH DOES NOT APPLY: $(head -1 /tmp/mutant_apply.err)"; fails=$((fails+1)); continue; fi
   t="skipped"
   if [ -z "${SKIP_TESTS:-}" ]; then
